@@ -25,6 +25,17 @@ NATIVE = {"sugar": False, "sugar_extended": True, "csugar": True, "enigma_csp": 
 HF = os.path.join(common.VERIF, "vlib", "eb", "harness", "h_c03.py")
 
 
+def _answer(text):
+    """the stand-in solver's reply; its own (recursive) reader gets a recursion limit of its own, restored before the library
+    continues, so that the library's behaviour on deeply nested constraints is the one a user sees"""
+    old = sys.getrecursionlimit()
+    sys.setrecursionlimit(max(old, 400000))
+    try:
+        return sugartext.answer(text)
+    finally:
+        sys.setrecursionlimit(old)
+
+
 class Capture:
     """observes the string handed to the external solver through each back end's real entry point"""
 
@@ -38,7 +49,7 @@ class Capture:
 
         def fake_run(args, input, timeout=None):
             cap.calls.append(("subprocess:%s" % (args,), input))
-            return sugartext.answer(input)
+            return _answer(input)
         SL.run_subprocess = fake_run
         for name in ("pycsugar", "enigma_csp", "cspuz_core"):
             self._saved_mods[name] = sys.modules.get(name)
@@ -46,7 +57,7 @@ class Capture:
 
             def solver(text, _n=name):
                 cap.calls.append(("module:" + _n, text))
-                return sugartext.answer(text)
+                return _answer(text)
             m.solver = solver
             sys.modules[name] = m
         return self
@@ -86,6 +97,15 @@ def build_program(p):
         for k in range(7, p["nvars"] - 1, 9):
             if k % 5 and (k + 1) % 5:
                 s.ensure(vs[k] == vs[k + 1])
+    elif p["kind"] == "deep":
+        # one constraint nested deeper than the interpreter's recursion limit, with non-commutative operators at the top and in
+        # the chain: either the call raises RecursionError and nothing is emitted, or what is emitted must mean the same
+        vs = [s.bool_var()] + [s.int_var(0, 1) for _ in range(p["depth"])]
+        acc = vs[1]
+        for k, v in enumerate(vs[2:]):
+            acc = (acc - v) if (p["minus_every"] and k % p["minus_every"] == 0) else (acc + v)
+        s.ensure(vs[0].then(acc <= p["bound"]))
+        s.ensure(vs[0] | (vs[1] > vs[2]))
     elif p["kind"] == "connected":
         g = G.Graph(p["n"])
         for u, v in p["edges"]:
@@ -151,6 +171,10 @@ def check_emission(rep, p, name, mode):
                 warnings.simplefilter("ignore")
                 try:
                     ret = s.find_answer(backend=name) if mode == "find" else s.solve(backend=name)
+                except RecursionError as e:
+                    if p["kind"] == "deep":
+                        return [], 0          # refusing a constraint deeper than the interpreter allows is not a wrong emission
+                    return ["exception %s: %s" % (type(e).__name__, str(e)[:200])], 0
                 except Exception as e:
                     return ["exception %s: %s" % (type(e).__name__, str(e)[:200])], 0
                 except _Stuck:
@@ -161,6 +185,18 @@ def check_emission(rep, p, name, mode):
         signal.signal(signal.SIGALRM, old_handler)
     if not cap.calls:
         return ["no external solver call observed"], 0
+    if p["kind"] == "deep":
+        import sys
+        old_limit = sys.getrecursionlimit()
+        sys.setrecursionlimit(max(old_limit, 40 * p["depth"] + 10000))     # for the checker's own parser / reference translator only
+        try:
+            return _judge_emission(p, name, mode, s, cap, ret, issues)
+        finally:
+            sys.setrecursionlimit(old_limit)
+    return _judge_emission(p, name, mode, s, cap, ret, issues)
+
+
+def _judge_emission(p, name, mode, s, cap, ret, issues):
     nq = 0
     env = ref.Env(prefix="")
     if p["kind"] == "tree":
@@ -278,6 +314,8 @@ def programs(tier, rng):
             out.append({"kind": kind, "n": n, "edges": es, "keymask": rng.randrange(1, 1 << 16)})
             if kind in ("connected", "borders"):
                 out.append({"kind": kind, "n": n, "edges": es, "keymask": rng.randrange(1, 1 << 16), "consts": True})
+    for depth, me, bound in ([(1200, 7, 5), (1500, 0, 700)] if tier == "quick" else [(1100, 0, 3), (1500, 0, 700), (2000, 2, 0), (3000, 7, 5), (6000, 3, -1)]):
+        out.append({"kind": "deep", "depth": depth, "minus_every": me, "bound": bound, "keymask": 1})
     for nv in ((300,) if tier == "quick" else (257, 300, 520)):
         out.append({"kind": "many", "nvars": nv, "keymask": 0xFFFF})
     return out
